@@ -142,3 +142,13 @@ def is_se3(t, tol=1e-6):
     r = t[:3, :3]
     return (np.abs(r.T @ r - np.eye(3)).max() < tol and abs(np.linalg.det(r) - 1) < tol
             and np.abs(t[3] - np.array([0, 0, 0, 1.0])).max() < tol)
+
+
+def in_log_band(r):
+    """Classifier of the known finding `log_near_pi`: a rotation within 3e-5 of a half turn
+    (acos input (tr-1)/2 < -1 + 4.5e-10) that is not an exact half-turn matrix (R != R^T).  There the
+    library's logarithm either takes its generic branch with an ill-conditioned arccos, or takes the
+    half-turn branch and discards the (representable) sign information in R - R^T."""
+    r = np.asarray(r, dtype=float)
+    x = (r[0, 0] + r[1, 1] + r[2, 2] - 1.0) / 2.0
+    return x < -1.0 + 4.5e-10 and not np.array_equal(r, r.T)
